@@ -11,6 +11,7 @@ cases:
   type-label-page-end  the same with the label ending exactly at the end of a page-sized file
   create-event-no-payload  OHC without payload: 'ovniemu -d' reads through a NULL payload (C19 R19.3)
   stale-jumbo-flag     a valid VYc jumbo event followed by a non-jumbo VYc with 8 bytes (C12 R12.5)
+  cpu-index-redefined  the same CPU index bound to two physical ids (C15 R15.4: must be an error message)
   cpus-decreasing      two CPUs listed with decreasing index (C15 R15.1: emulator crashes)
 """
 import json, os, struct, sys
@@ -74,5 +75,7 @@ elif case == "stale-jumbo-flag":
     write(out, [X, good, bad, E(30)], require={"ovni": "1.1.0", "nosv": "2.4.0"})
 elif case == "cpus-decreasing":
     write(out, [X, E(30)], meta_extra={"loom_cpus": [{"index": 1, "phyid": 1}, {"index": 0, "phyid": 0}]})
+elif case == "cpu-index-redefined":
+    write(out, [X, E(30)], meta_extra={"loom_cpus": [{"index": 0, "phyid": 0}, {"index": 0, "phyid": 5}]})
 else:
     sys.exit("unknown case")
